@@ -140,7 +140,7 @@ def run_unit(name, repo=None, rlimit=None, outdir=None, extra_args=(), solver=No
     outdir = outdir or os.path.join(VERIF, "build")
     path = _pre_path
     cmd = ["verus", os.path.basename(path), "--output-json", "--time", "--error-format=json",
-           "--multiple-errors", "2", "--rlimit", str(rlimit or 30), "--num-threads", "4"]
+           "--multiple-errors", "10", "--rlimit", str(rlimit or 30), "--num-threads", "4"]
     if solver == "cvc5":
         cmd += ["-V", "cvc5"]
     cmd += list(extra_args)
